@@ -13,8 +13,9 @@ use super::c05::{
 };
 use crate::engine::{Ctx, Gen, Obs, PanicPolicy, PartCfg};
 use crate::model::*;
-use feos::core::{Contributions, DensityInitialization, EosError, PhaseEquilibrium, ReferenceSystem, SolverOptions, State};
-use ndarray::arr1;
+use feos::core::{Components, Contributions, DensityInitialization, EosError, PhaseEquilibrium, ReferenceSystem, SolverOptions, State};
+use ndarray::{arr1, Array1};
+use std::sync::Arc;
 use quantity::*;
 use serde::{Deserialize, Serialize};
 use serde_json::{json, Value};
@@ -97,9 +98,9 @@ pub fn check_trials(obs: &mut Obs, tag: &str, feed: &St, trials: &[St]) -> Vec<f
                     );
                 }
                 obs.count();
-                if !(d < 0.0) {
+                if !(d.is_finite() && d < 0.0) {
                     let msg = format!(
-                        "{tag}: trial {k} (x = {:?}, rho = {:e}) has tangent-plane distance {d:e} >= 0 to the feed (fugacity form {d_f:e}; T = {}, p = {pf:e}, z = {:?})",
+                        "{tag}: trial {k} (x = {:?}, rho = {:e}) has tangent-plane distance {d:e} (not finite and negative) to the feed (fugacity form {d_f:e}; T = {}, p = {pf:e}, z = {:?})",
                         tr.molefracs.to_vec(),
                         tr.density.to_reduced(),
                         feed.temperature,
@@ -299,15 +300,55 @@ fn strict_kind(_mp: &MixPoint) -> bool {
 }
 
 // ---------------------------------------------------------------------------------------
+// feeds with a component of exactly zero moles
+// ---------------------------------------------------------------------------------------
+/// (p_dew, p_bub) (reduced) at the case temperature of the mixture *without* component k, from
+/// the sub-model `eos.subset(others)`: pure sub-model -> vapor pressure twice.
+fn sub_envelope(b: &Built, k: usize, obs: &mut Obs) -> Option<(f64, f64)> {
+    let others: Vec<usize> = (0..b.x.len()).filter(|&i| i != k).collect();
+    let sub: Arc<Model> = Arc::new(b.eos.subset(&others));
+    if others.len() == 1 {
+        return match PhaseEquilibrium::pure(&sub, b.t, None, SolverOptions::default()) {
+            Ok(v) => {
+                let p = pressure_red(v.vapor());
+                Some((p, p))
+            }
+            Err(e) => {
+                obs.discard(format!("zero-mole feed: pure VLE of the remaining component: {}", err_name(&e)));
+                None
+            }
+        };
+    }
+    let xs: Array1<f64> = others.iter().map(|&i| b.x[i]).collect();
+    let bs = Built {
+        eos: sub,
+        tc: vec![],
+        t: b.t,
+        x: &xs / xs.sum(),
+    };
+    usable_envelope(&bs, obs).map(|(bub, dew)| (p_of(&dew), p_of(&bub)))
+}
+
+/// feed in the full model with exactly zero moles of component k
+fn zero_feed(b: &Built, k: usize, p: f64) -> Result<St, EosError> {
+    let mut x = b.x.clone();
+    x[k] = 0.0;
+    let x = &x / x.sum();
+    State::new_npt(&b.eos, b.t, Pressure::from_reduced(p), &(x * MOL), DensityInitialization::None)
+}
+
+// ---------------------------------------------------------------------------------------
 // part `mix`
 // ---------------------------------------------------------------------------------------
 #[derive(Serialize, Deserialize, Clone, Debug)]
 pub struct MixCase {
     pub mix: MixPoint,
     /// 0 inside, 1 below the dew pressure, 2 above the bubble pressure, 3 phases of a flash,
-    /// 4 phases of the bubble and dew point, 5 within 2 % of the boundary (either side; soundness only)
+    /// 4 phases of the bubble and dew point, 5 within 2 % of the boundary (either side; soundness only),
+    /// 6 feed with exactly zero moles of component `init % n` (envelope of the remaining components)
     pub region: u8,
-    /// inside / flash: position in [1.02 p_dew, 0.98 p_bub]; outside: margin in [0.02, 0.5]
+    /// inside / flash: position in [1.02 p_dew, 0.98 p_bub]; outside: margin in [0.02, 0.5];
+    /// region 6: u < 0 below dew with margin |u|, 0 < u < 1 above bubble with margin u, u >= 2 inside at u - 2
     pub u: f64,
     pub opts: SolverOpt,
     /// root of the feed state: 0 stable, 1 liquid, 2 vapor
@@ -316,9 +357,14 @@ pub struct MixCase {
 
 pub fn decode_mix(g: &mut Gen) -> MixCase {
     let mix = gen_mixpoint(g, 3);
-    let region = g.index(6) as u8;
+    let region = g.index(7) as u8;
     let u = match region {
         1 | 2 => g.log_range(0.02, 0.5),
+        6 => match g.index(3) {
+            0 => -g.log_range(0.02, 0.5),
+            1 => g.log_range(0.02, 0.5),
+            _ => 2.0 + g.unit(),
+        },
         5 => g.log_range(1e-6, 2e-2) * if g.bool(0.5) { -1.0 } else { 1.0 },
         _ => g.unit(),
     };
@@ -331,13 +377,58 @@ pub fn decode_mix(g: &mut Gen) -> MixCase {
     }
 }
 
+/// region 6: zero-mole feeds. The absent component cannot take part in any phase split (its
+/// tangent-plane contribution is +infinity), so the verdicts are those of the remaining mixture and
+/// every trial state must have a finite, negative recomputed tpd (in particular none of the absent
+/// component).
+fn check_zero_feed(case: &MixCase, b: &Built, obs: &mut Obs) {
+    let n = b.x.len();
+    let k = case.init as usize % n;
+    obs.class(format!("zero-mole feed, {} remaining component(s)", n - 1));
+    let Some((pd, pb)) = sub_envelope(b, k, obs) else { return };
+    let (tag, p) = if case.u < 0.0 {
+        ("zero-mole feed below dew", pd * (1.0 + case.u))
+    } else if case.u < 1.0 {
+        ("zero-mole feed above bubble", pb * (1.0 + case.u))
+    } else {
+        if !(pb / pd > 1.05) {
+            obs.class("zero-mole feed: no envelope wider than 5 % (pure or narrow): inside excluded");
+            return;
+        }
+        ("zero-mole feed inside", 1.02 * pd + (case.u - 2.0).clamp(0.0, 1.0) * (0.98 * pb - 1.02 * pd))
+    };
+    let feed = match zero_feed(b, k, p) {
+        Ok(s) => s,
+        Err(e) => {
+            obs.discard(format!("zero-mole feed state: {}", err_name(&e)));
+            return;
+        }
+    };
+    obs.ensure(feed.molefracs[k] == 0.0, || "harness: feed component not exactly zero".to_string());
+    obs.nontrivial();
+    if let Err(e) = feed.stability_analysis(case.opts.to()) {
+        // coverage diagnostic: where the analysis rejects a zero-mole feed
+        obs.class(format!("zero-mole feed: Err {} in {} (n = {n})", err_name(&e), case.mix.spec.source));
+    }
+    if case.u >= 2.0 {
+        expect_unstable(obs, tag, &feed, &case.opts, false);
+    } else {
+        expect_stable(obs, tag, &feed, &case.opts, false, None);
+    }
+}
+
 pub fn check_mix(case: &MixCase, obs: &mut Obs) {
     let Some(b) = build_point(&case.mix, obs, 1.8) else { return };
+    if case.region % 7 == 6 {
+        obs.class(if case.opts.is_default() { "default options" } else { "sampled options" });
+        check_zero_feed(case, &b, obs);
+        return;
+    }
     let Some((bub, dew)) = usable_envelope(&b, obs) else { return };
     let (pb, pd) = (p_of(&bub), p_of(&dew));
     let strict = strict_kind(&case.mix);
     obs.class(if case.opts.is_default() { "default options" } else { "sampled options" });
-    match case.region % 6 {
+    match case.region % 7 {
         5 => {
             // closer to the boundary than the 2 % of the quantifier: no verdict is demanded, but every
             // returned trial state must still be sound; u > 0: outside, u < 0: inside
@@ -456,6 +547,19 @@ pub fn check_lattice(case: &LatticeCase, obs: &mut Obs) {
             sa_class(obs, tag, &r);
             if let Ok(trials) = r {
                 check_trials(obs, tag, &s, &trials);
+            }
+        }
+    }
+    // one component with exactly zero moles: the other one, pure, in the binary model 2 % above and
+    // below its vapor pressure is stable and no trial state may contain the absent component
+    {
+        let k = if case.mix.x[0] < 0.5 { 0 } else { 1 };
+        if let Some((ps, _)) = sub_envelope(&b, k, obs) {
+            for (tag, p) in [("zero-mole feed below dew", ps * 0.98), ("zero-mole feed above bubble", ps * 1.02)] {
+                match zero_feed(&b, k, p) {
+                    Ok(s) => expect_stable(obs, tag, &s, &d, true, None),
+                    Err(e) => obs.discard(format!("zero-mole feed state: {}", err_name(&e))),
+                }
             }
         }
     }
@@ -623,8 +727,9 @@ const PART_PURE: PartCfg = PartCfg {
 };
 
 pub fn run(ctx: &Ctx) {
-    ctx.set_rule("lattice (seed independent): hydrocarbon pairs of gross2001 with T_c ratio < 1.5 (quick: every 8th pair, thorough: all) x T/T_c,low in {0.65..0.9} x x_1 in {0.05..0.95}: feeds at p_dew 0.98 and p_bub 1.02 (stable), feeds 1e-4 outside either boundary (soundness of trial states only), the four bubble/dew phases (stable), feeds at 1.02 p_dew, mid, 0.98 p_bub (unstable + flash splits; envelopes narrower than 5 % excluded and counted). mix (sampled): mixtures/T/x of C05 (PC-SAFT hydrocarbons, other PC-SAFT records, gc-PC-SAFT, SAFT-VR Mie; 2-3 components, T_c ratio < 1.8, T/T_c,low in [0.6,0.95], x_i >= 0.02) x region {inside [1.02 p_dew, 0.98 p_bub], below dew and above bubble with margin log-uniform in [0.02,0.5], phases of a converged flash, phases of the bubble and dew point, feeds within 2 % of the boundary (margin log-uniform 1e-6..2e-2, either side; soundness of the trial states only)} x stability options (max_iter 50-400, tol 1e-8..1e-5, p 0.5) x feed root (stable/liquid/vapor). pure (sampled): pure records of the same pools, T/T_c in [0.5,0.98], 40-point geometric or linear density grid from 0.2 rho_v to 1.1 rho_l. Non-trivial: a returned trial state with recomputed tpd in [-1,-1e-6], or a verdict within 10 % of the phase boundary, or an equilibrium phase. Distinct by hash of the canonical case JSON.");
+    ctx.set_rule("lattice (seed independent): hydrocarbon pairs of gross2001 with T_c ratio < 1.5 (quick: every 8th pair, thorough: all) x T/T_c,low in {0.65..0.9} x x_1 in {0.05..0.95}: feeds at p_dew 0.98 and p_bub 1.02 (stable), feeds 1e-4 outside either boundary (soundness of trial states only), one component pure in the binary model (the other with exactly zero moles) 2 % above / below its vapor pressure (stable), the four bubble/dew phases (stable), feeds at 1.02 p_dew, mid, 0.98 p_bub (unstable + flash splits; envelopes narrower than 5 % excluded and counted). mix (sampled): mixtures/T/x of C05 (PC-SAFT hydrocarbons, other PC-SAFT records, gc-PC-SAFT, SAFT-VR Mie; 2-3 components, T_c ratio < 1.8, T/T_c,low in [0.6,0.95], x_i >= 0.02) x region {inside [1.02 p_dew, 0.98 p_bub], below dew and above bubble with margin log-uniform in [0.02,0.5], phases of a converged flash, phases of the bubble and dew point, feeds within 2 % of the boundary (margin log-uniform 1e-6..2e-2, either side; soundness of the trial states only), feeds with exactly zero moles of one component (below dew / above bubble / inside the envelope of the remaining components computed with the sub-model)} x stability options (max_iter 50-400, tol 1e-8..1e-5, p 0.5) x feed root (stable/liquid/vapor). pure (sampled): pure records of the same pools, T/T_c in [0.5,0.98], 40-point geometric or linear density grid from 0.2 rho_v to 1.1 rho_l. Non-trivial: a returned trial state with recomputed tpd in [-1,-1e-6], or a verdict within 10 % of the phase boundary, or an equilibrium phase. Distinct by hash of the canonical case JSON.");
     ctx.assume("tangent-plane distance recomputed as sum_i w_i (ln f_i(trial) - ln f_i(feed)) with ln f_i = ln(x_i phi_i p) from ln_phi, molefracs and pressure of fresh State::new_nvt copies (C01/C02 validate ln_phi); strictly negative is demanded, no tolerance");
+    ctx.assume("zero-mole feeds: the absent component has ln z_i = -inf, a trial state containing it has tpd = +inf (reported as not finite and negative); phase boundary of the remaining components from eos.subset (C09 validates subset)");
     ctx.assume("trial state temperature bitwise equal to the feed's, pressure to 1e-7 relative + 1e-10 reduced (100 x the density-iteration tolerance)");
     ctx.assume("phase boundary from default bubble_point / dew_point (C05 checks them); cases whose envelope is not a vapor-liquid pair are discarded");
     ctx.assume("a sound trial state (recomputed tpd < 0) proves an 'unstable' verdict right; a phase of a converged result reported unstable is therefore a violation iff a returned trial state is its own coexisting phase (density and composition within 1e-3), otherwise the model has a further phase split there (class 'another phase split', sampled k_ij up to +-0.08); on the lattice (gross2001 hydrocarbon pairs, k_ij = 0) and for pure fluids any 'unstable' verdict for an expected-stable state is reported");
